@@ -42,6 +42,7 @@ package cfedistributor
 //@ func InitGenesis(ctx, k, genState, ak)
 //@   // what GenesisState.Validate established: every state is present, and a non-burn state names its account
 //@   requires forall i: int :: {genState.States[i]} 0 <= i && i < len(genState.States) ==> genState.States[i] != nil && (!genState.States[i].Burn ==> genState.States[i].Account != nil)
+//@   panic_requires shareListsBounded(genState.Params.SubDistributors)
 //@   modifies $stLogN, $stLogRem, $kvHas, $kvVal
 //@   ensures $stLogN == old($stLogN) + len(genState.States)
 //@   prop C10 C12
